@@ -37,6 +37,12 @@ package httpgen
 //@   requires spec.distinctNames(serviceHeaders) && spec.distinctNames(methodHeaders)
 //@   ensures one_outcome: (count("ServeHTTP") - old(count("ServeHTTP"))) + (count("writeErrorWithHandler") - old(count("writeErrorWithHandler"))) == 1
 //@   ensures headers_checked: count("validateHeaders") == old(count("validateHeaders")) + 1
+// every request gets a message of its own (C17): what the binders fill, the validator reads and the handler receives was
+// allocated while serving this request
+//@   at-call bindDataBasedOnContentType requires own_message: isFresh(arg1)
+//@   at-call bindPathParams requires own_message: isFresh(arg1)
+//@   at-call bindQueryParams requires own_message: isFresh(arg1)
+//@   at-call ValidateMessage requires own_message: isFresh(arg0)
 //@   at-call bindPathParams requires headers_first: count("validateHeaders") > old(count("validateHeaders")) && lastNil("validateHeaders")
 //@   at-call bindQueryParams requires after_path: lastNil("validateHeaders") && count("bindPathParams") > old(count("bindPathParams")) && lastNil("bindPathParams")
 //@   at-call bindDataBasedOnContentType requires headers_first: count("validateHeaders") > old(count("validateHeaders")) && lastNil("validateHeaders")
